@@ -13,6 +13,9 @@ import (
 	"github.com/dtn7/dtn7-go/pkg/cla/tcpclv4/internal/msgs"
 )
 
+// MaxSegmentMtu is the maximum size of an outgoing XFER_SEGMENT's data, used as an upper bound for the peer's Segment MRU.
+const MaxSegmentMtu uint64 = 1048576
+
 // OutgoingTransfer represents an outgoing Bundle Transfer for the TCPCLv4.
 type OutgoingTransfer struct {
 	Id uint64
@@ -53,7 +56,17 @@ func NewBundleOutgoingTransfer(id uint64, b bpv7.Bundle) *OutgoingTransfer {
 }
 
 // NextSegment creates the next XFER_SEGMENT for the given MTU or an EOF in case of a finished Writer.
+//
+// The MTU originates from the peer's SESS_INIT message. A MTU of zero is an error, because such segments would never
+// make any progress. The segment's size is limited to MaxSegmentMtu, even for a greater MTU.
 func (t *OutgoingTransfer) NextSegment(mtu uint64) (dtm *msgs.DataTransmissionMessage, err error) {
+	if mtu == 0 {
+		err = fmt.Errorf("segment MTU must not be zero")
+		return
+	} else if mtu > MaxSegmentMtu {
+		mtu = MaxSegmentMtu
+	}
+
 	var segFlags msgs.SegmentFlags
 
 	if t.startFlag {
